@@ -268,7 +268,8 @@ class Driver:
             return []
         data = "\n".join(json.dumps(r) for r in requests) + "\n"
         p = subprocess.run([self.path], input=data, capture_output=True, text=True, timeout=timeout)
-        lines = [l for l in p.stdout.splitlines() if l.strip()]
+        # one answer per "\n": str.splitlines() would also split at U+2028, U+0085, \x0c … inside an echoed id
+        lines = [l for l in p.stdout.split("\n") if l.strip()]
         if len(lines) != len(requests):
             raise RuntimeError(
                 f"driver {self.path}: {len(lines)} answers for {len(requests)} requests; stderr={p.stderr[:500]}"
